@@ -131,7 +131,7 @@ func (ts *TimedSched) sched() {
 			drained = true
 			verifEv("sched.fire", ts, wid, int64(tasks.Len()), 0)
 			for tasks.Len() > 0 {
-				if now.After(tasks[0].ts) {
+				if !now.Before(tasks[0].ts) {
 					verifEv("sched.exec", ts, wid, int64(now.Sub(tasks[0].ts)), int64(tasks.Len()))
 					heap.Pop(&tasks).(timedFunc).execute()
 				} else {
